@@ -738,6 +738,7 @@ class LeastSquare:
             Fvalues = np.array(Fvalues, dtype=numbtype)
             Gvalues = np.array(Gvalues, dtype=numbtype)
             for k, integ in enumerate(integrator):
+                integ = integ * (end - start)
                 FF += integ * np.tensordot(Fvalues[:, k], Fvalues[:, k], axes=0)
                 GF += integ * np.tensordot(Gvalues[:, k], Fvalues[:, k], axes=0)
                 GG += integ * np.tensordot(Gvalues[:, k], Gvalues[:, k], axes=0)
